@@ -147,6 +147,24 @@ Definition splice (b : list Z) (i j : Z) (r : list Z) : result (list Z * Z) :=
   let newlen := len b - n + len r in
   if slice_ok 0 newlen (len b) then Ok (firstz newlen b2, i + len r - 1) else Panic.
 
+(* the look-behind added by /repo 628a240 + c07f47f: does the replacement continue an ampersand sequence in front?
+   for k := i-1; 0 <= k; k-- { if b[k]=='&' || MaxEntityLength+2 < i-k {return b, j}
+                               else if b[k] not in [0-9a-zA-Z#] {break} }
+   on the reversed prefix b[:i]; dist = i-k.  Too far to tell counts like an ampersand. *)
+Definition cont_start (c : Z) : bool := is_alnum c || (c =? 35) || (c =? 59).
+Fixpoint look_behind (pre_rev : list Z) (dist : Z) : bool :=
+  match pre_rev with
+  | c :: t => if (c =? 38) || (33 <? dist) then true
+              else if is_alnum c || (c =? 35) then look_behind t (dist + 1) else false
+  | [] => false
+  end.
+(* "return b, j" when the look-behind finds an ampersand, otherwise the in-place replacement *)
+Definition guard_splice (b : list Z) (i j : Z) (r : list Z) : result (list Z * Z) :=
+  match r with
+  | c :: _ => if cont_start c && look_behind (rev (firstz i b)) 1 then Ok (b, j) else splice b i j r
+  | [] => splice b i j r
+  end.
+
 Section Entities.
   Variable emap : list (list Z * list Z).    (* entitiesMap: name -> replacement *)
   Variable rmap : list (Z * list Z).         (* revEntitiesMap: byte -> reference *)
@@ -158,15 +176,15 @@ Section Entities.
       match r with
       | [c] =>
           match lookup_byte rmap c with
-          | Some q => if list_eqb q (slice b i (j + 1)) then Ok (b, j) else splice b i j q
+          | Some q => if list_eqb q (slice b i (j + 1)) then Ok (b, j) else guard_splice b i j q
           | None =>
               if c =? 38 then
                 let k := j + 1 in
                 if (k <? len b) && (is_alnum (getz b k) || (getz b k =? 35)) then Ok (b, k)
-                else splice b i j r
-              else splice b i j r
+                else guard_splice b i j r
+              else guard_splice b i j r
           end
-      | _ => splice b i j r
+      | _ => guard_splice b i j r
       end
     else Ok (b, i).
 
